@@ -87,3 +87,12 @@ Proof. revert k; induction l as [|h t IH]; intros [|k]; simpl; auto. f_equal; au
 
 Lemma nth_map_some {A B} (f : A -> B) l k x : nth_error l k = Some x -> nth_error (map f l) k = Some (f x).
 Proof. intro H. rewrite nth_error_map, H. reflexivity. Qed.
+
+Lemma cnt_two {A} (P : A -> bool) l j k x y :
+  j <> k -> nth_error l j = Some x -> nth_error l k = Some y -> P x = true -> P y = true -> 2 <= cnt P l.
+Proof.
+  revert j k; induction l as [|h t IH]; intros [|j] [|k] Hne Hj Hk Px Py; simpl in *; try discriminate; try congruence.
+  - inversion Hj; subst. rewrite cnt_cons, Px. pose proof (cnt_pos P t k y Hk Py). simpl. lia.
+  - inversion Hk; subst. rewrite cnt_cons, Py. pose proof (cnt_pos P t j x Hj Px). simpl. lia.
+  - rewrite cnt_cons. assert (j <> k) by congruence. specialize (IH j k H Hj Hk Px Py). lia.
+Qed.
